@@ -125,6 +125,18 @@ def run(ck):
     ck.ob("R1", "BlockChain.fix_blocks:backward-running-offset", bool(reads) and bool(carried), m.where(back),
           "the backward loop computes every block's offset from `%s`, which it never updates: two blocks before the pinned one overlap"
           % ", ".join(sorted(reads)))
+    # ... and the step is the block's own (final) size, as in the forward loop: the reserved room (max_size plus padding) is what
+    # place() budgets with, not where fix_blocks puts the block
+    tgt_b = norm(back.target)
+    steps = [n.value for n in walk_local(ast.Module(body=back.body, type_ignores=[])) if isinstance(n, ast.Assign) and isinstance(n.value, ast.BinOp)
+             and isinstance(n.value.op, ast.Sub) and any(isinstance(x, ast.Name) and x.id in carried for x in walk_local(n.value.left))
+             and tgt_b in [x.id for x in ast.walk(n.value.right) if isinstance(x, ast.Name)]] + \
+            [n.value for n in walk_local(ast.Module(body=back.body, type_ignores=[])) if isinstance(n, ast.AugAssign) and isinstance(n.op, ast.Sub)
+             and norm(n.target) in carried and tgt_b in [x.id for x in ast.walk(n.value) if isinstance(x, ast.Name)]]
+    step_txt = [norm(v.right) if isinstance(v, ast.BinOp) else norm(v) for v in steps]
+    ck.ob("R4", "BlockChain.fix_blocks:backward-step", bool(steps) and all(t == "%s.size" % tgt_b for t in step_txt), m.where(back),
+          "the backward loop steps by `%s`; a block placed before the pinned one ends where the next one starts only if the step is its size `%s.size`"
+          % (", ".join(step_txt) or "nothing", tgt_b))
     fwd = loops[1]
     ok = any(isinstance(n, ast.AugAssign) and isinstance(n.op, ast.Add) and norm(n.value) == "%s.size" % norm(fwd.target)
              for n in walk_local(ast.Module(body=fwd.body, type_ignores=[])))
